@@ -18,6 +18,7 @@ OutMatches(op, a, exp, got) ==
   CASE op = "get_bonds" \/ (op = "index" /\ a[1][1] = "int") ->
          ToSet(got) = exp /\ NoDupSeq(got)
     [] op = "contains" -> got = exp
+    [] op = "independent" -> got = exp
     [] op = "views" ->
          /\ Len(got.nb) = Len(exp.nb)
          /\ \A k \in DOMAIN exp.nb : ToSet(got.nb[k]) = exp.nb[k] /\ NoDupSeq(got.nb[k])
